@@ -155,6 +155,20 @@ def other_recipes():
     add('OperatorVectorSum', {}, lambda: odl.OperatorVectorSum(P2, r3.element([1, 2, 3])))
     add('OperatorPointwiseProduct', {}, lambda: odl.OperatorPointwiseProduct(P2, odl.ScalingOperator(r3, 3.0)))
     add('FunctionalLeftVectorMult', {}, lambda: odl.FunctionalLeftVectorMult(odl.solvers.L2NormSquared(r3), r3.element([1, 2, 3])))
+    # expression classes wrapped around operators that are NOT alias-safe in place (finite differences)
+    dl = odl.uniform_discr(0, 1, 6)
+    for bname, base in (('Laplacian', lambda: odl.Laplacian(dl, pad_mode='symmetric')),
+                        ('PartialDerivative', lambda: odl.PartialDerivative(dl, 0, pad_mode='order1'))):
+        vec = lambda: dl.element([1, -2, 0.5, 3, 1, 2])
+        add('expr(' + bname + ')', {'wrap': 'A*v'}, lambda base=base, vec=vec: base() * vec())
+        add('expr(' + bname + ')', {'wrap': 'v*A'}, lambda base=base, vec=vec: vec() * base())
+        add('expr(' + bname + ')', {'wrap': 'A*a'}, lambda base=base: odl.OperatorRightScalarMult(base(), 2.0))
+        add('expr(' + bname + ')', {'wrap': 'a*A'}, lambda base=base: -3.0 * base())
+        add('expr(' + bname + ')', {'wrap': 'A+B'}, lambda base=base: base() + odl.ScalingOperator(dl, 2.0))
+        add('expr(' + bname + ')', {'wrap': 'A*B'}, lambda base=base: base() * base())
+        add('expr(' + bname + ')', {'wrap': 'A**3'}, lambda base=base: base() ** 3)
+        add('expr(' + bname + ')', {'wrap': 'A+v'}, lambda base=base, vec=vec: base() + vec())
+        add('expr(' + bname + ')', {'wrap': '(A*v)*B'}, lambda base=base, vec=vec: (base() * vec()) * base())
     # solver building blocks and proximal factories
     S = odl.solvers
     add('proximal_const_func', {}, lambda: S.proximal_const_func(r3)(0.5))
